@@ -1,0 +1,1 @@
+//! Verification doors: shutdown (cfg(trusttunnel_verif) only)
